@@ -6,6 +6,7 @@ import (
 	"astverif/demuxrules"
 	"astverif/layout"
 	"astverif/lin"
+	"astverif/muxstate"
 	"astverif/ownership"
 	"astverif/report"
 	"astverif/tables"
@@ -77,6 +78,9 @@ func c13(c *Ctx) {
 	// EVERY section of a unit — the running checksum starts at 0xFFFFFFFF for each section, is updated only by the write
 	// callback and is emitted as it stands (C09d, and the writer facts F6 of the CRC proof)
 	crcgate.OutputSide(c.P, r)
+	// "the reference encoding of the same content": the PMT/PAT bytes emitted are serialised from the current content on every
+	// successful generation, never patched cached bytes (rules 'current' of C17)
+	muxstate.Current(c.P, r)
 	{
 		tmp := report.New("tmp", c.Tier, "other")
 		crc.Prove(c.P, tmp)
